@@ -591,6 +591,19 @@ def _serializer_modules(fnode, imports, resolve=lambda call: None):
                 for i, a in enumerate(t.elts):
                     if isinstance(a, ast.Name):
                         local.setdefault(a.id, set()).update(pos.get(i, set()))
+        elif isinstance(v, ast.Subscript) and isinstance(v.value, ast.Call):
+            # helper()[:2] / helper()[0]
+            h = resolve(v.value)
+            if h is not None:
+                pos = _ret_modules(h, imports, resolve)
+                sl = v.slice
+                if isinstance(sl, ast.Slice) and (sl.lower is None or isinstance(sl.lower, ast.Constant)) and isinstance(t, (ast.Tuple, ast.List)):
+                    off = sl.lower.value if sl.lower is not None else 0
+                    for i, a in enumerate(t.elts):
+                        if isinstance(a, ast.Name):
+                            local.setdefault(a.id, set()).update(pos.get(i + off, set()))
+                elif isinstance(sl, ast.Constant) and isinstance(sl.value, int) and isinstance(t, ast.Name):
+                    local.setdefault(t.id, set()).update(pos.get(sl.value, set()))
     assigns = sorted([n for n in ast.walk(fnode) if isinstance(n, ast.Assign)], key=lambda n: n.lineno)
     for n in assigns:
         for t in n.targets:
